@@ -474,7 +474,8 @@ thread_local! {
 }
 
 /// (b) histories: sequences of runs appending to the same file
-fn histories(fx: &Fixture, tier: Tier, st: &mut Stats) {
+/// `only`: a recorded history (replay) - just that format x persistence x parallelism x run sequence is run
+fn histories(fx: &Fixture, tier: Tier, st: &mut Stats, only: Option<&Value>) {
     let qa = query_alphabet();
     let app = &fx.app;
     let formats: Vec<(&str, Value)> = vec![
@@ -512,6 +513,12 @@ fn histories(fx: &Fixture, tier: Tier, st: &mut Stats) {
                     layer = next;
                 }
                 for (si, seq) in seqs.iter().enumerate() {
+                    if let Some(o) = only {
+                        let runs = json!(seq.iter().map(|c| contents[*c].clone()).collect::<Vec<_>>());
+                        if o["format"].as_str() != Some(*fname) || o["persistence"].as_str() != Some(persist) || o["parallelism"].as_u64() != Some(par as u64) || o["runs"] != runs {
+                            continue;
+                        }
+                    }
                     if tier == Tier::Quick && seq.len() > 1 && (si + par) % 3 != 0 {
                         continue;
                     }
@@ -695,7 +702,7 @@ pub fn run(tier: Tier) -> i32 {
         }
     };
     st.sample(2, || json!({"scenario": "2x2_jsonl_1_keep", "tasks": 2, "queries_per_task": 2, "schedule": [0, 0, 1, 0, 0, 1], "meaning": "choice index among enabled tasks at each lock/write/flush point; 0 = running task continues"}));
-    histories(&fx, tier, &mut st);
+    histories(&fx, tier, &mut st, None);
     st.sample(4, || json!({"history": {"format": "csv_optional", "persistence": "persist_response_in_memory", "parallelism": 3, "runs": [[0, 2], [1, 4, 3]]}}));
     let assumptions = vec![
         "shared state between workers is only reachable through the five hooked mutex sites and the output file (source scan recorded in DESIGN §2.3); rayon's own scheduler is trusted".into(),
@@ -797,8 +804,19 @@ pub fn replay(case: &Value) -> i32 {
     let sc = match scenarios(Tier::Thorough).into_iter().map(|s| s.0).find(|s| s.name == name) {
         Some(s) => s,
         None => {
-            println!("not a schedule case; re-running the quick tier");
-            return run(Tier::Quick);
+            // an append history (or an input-plugin-failure batch, which is part of the same pass): run it again without the tier
+            let mut st = Stats::new();
+            let c = if case.get("case").is_some() { &case["case"] } else { case };
+            if c.get("runs").is_some() {
+                histories(&fx, Tier::Thorough, &mut st, Some(c));
+            } else {
+                histories(&fx, Tier::Thorough, &mut st, Some(&json!({"format": "none"})));
+            }
+            for (k, g) in st.violations.iter() {
+                println!("REPLAY-VIOLATION {} ({} cases) {}", k, g.count, g.detail.chars().take(500).collect::<String>());
+            }
+            println!("replay: {} violated clauses over {} histories", st.violations.len(), st.evaluations);
+            return if st.violations.is_empty() { 0 } else { 1 };
         }
     };
     let prefix: Vec<usize> = serde_json::from_value(case["schedule"].clone()).unwrap_or_default();
